@@ -7,6 +7,7 @@ Transcribed by hand from
   * oxidize-pdf-core/src/parser/document.rs   `PdfDocument::{page_count, ensure_page_tree, get_page,
     load_page_by_ref, collect_inherited_attributes, create_parsed_page, get_rectangle, get_integer}`
   * oxidize-pdf-core/src/parser/reader.rs     `resolve_to_array`, `PdfReader::page_count`
+    (since the repair of C18-F1 the same flatten walk as `PdfDocument::page_count`)
 
 The object graph is a finite map from object numbers to objects; a reference to a number that
 is not in the map (a free xref entry) resolves to `null`, as in `PdfReader::get_object`.
@@ -252,8 +253,20 @@ def pageResources (g : Graph) (page : Dict) (inh : Inh) : Option (List String) :
     | some r => resolveResKeys g r
     | none => none
 
-/-- `create_parsed_page`; `none` = `Err` -/
-def createPage (g : Graph) (id : Nat) (page : Dict) (inh : Inh) : Option Page :=
+/-- `self.resolve(obj).ok()` at the head of `get_rectangle` / `get_integer`: ONE level of
+indirection for an attribute value.  A reference to a number-array / integer / … object yields
+that value; to an array object of references an array whose elements are all non-numeric; to
+anything else (null = free entry, dictionary, stream) a value that is neither array nor integer. -/
+def resolveRaw (g : Graph) : Option Raw → Option Raw
+  | some (.ref n) => match g.get n with
+    | .raw r => some r
+    | .arr es => some (.nums (es.map fun _ => none))
+    | _ => some .junk
+  | v => v
+
+/-- `create_parsed_page` BEFORE the repair of C18-F2 (`get_rectangle` / `get_integer` looked at
+direct values only); kept for the regression witness -/
+def createPageUnresolved (g : Graph) (id : Nat) (page : Dict) (inh : Inh) : Option Page :=
   match getRect (effective page inh .mediaBox) with
   | none => none
   | some mbo =>
@@ -262,6 +275,19 @@ def createPage (g : Graph) (id : Nat) (page : Dict) (inh : Inh) : Option Page :=
     | some cbo =>
       some { id := id, mediaBox := mbo.getD [0, 0, 1224, 1584], cropBox := cbo,
              rotation := wrapI32 ((getInt (effective page inh .rotate)).getD 0),
+             resources := (pageResources g page inh).map sortKeys }
+
+/-- `create_parsed_page`; `none` = `Err`.  MediaBox / CropBox / Rotate: the effective (own, else
+inherited) entry, resolved through one reference, then read as rectangle / integer. -/
+def createPage (g : Graph) (id : Nat) (page : Dict) (inh : Inh) : Option Page :=
+  match getRect (resolveRaw g (effective page inh .mediaBox)) with
+  | none => none
+  | some mbo =>
+    match getRect (resolveRaw g (effective page inh .cropBox)) with
+    | none => none
+    | some cbo =>
+      some { id := id, mediaBox := mbo.getD [0, 0, 1224, 1584], cropBox := cbo,
+             rotation := wrapI32 ((getInt (resolveRaw g (effective page inh .rotate))).getD 0),
              resources := (pageResources g page inh).map sortKeys }
 
 inductive PageRes where
@@ -301,10 +327,17 @@ def countValue (g : Graph) : Option Raw → Option Int
     | _ => none
   | _ => none
 
-def readerPageCount (g : Graph) (root : Dict) : Nat :=
+/-- `PdfReader::page_count` BEFORE the repair of C18-F1: the declared root `/Count` (inline or
+indirect, `as u32`, ≤ 100 000), else the length of the root `/Kids` array, else 0 — the tree is
+not walked.  Kept for the regression witness. -/
+def readerPageCountDeclared (g : Graph) (root : Dict) : Nat :=
   let fallback := (arrayLen g root.kids).getD 0
   match countValue g root.count with
   | some c => if wrapU32 c ≤ MAX_PAGE_COUNT then wrapU32 c else fallback
   | none => fallback
+
+/-- `PdfReader::page_count`: `flatten_page_tree(self, &pages)?.len()` — the same traversal as
+`PdfDocument::page_count`; `none` = fuel exhausted (never, `C18_flatten_terminates`). -/
+def readerPageCount (g : Graph) (root : Dict) : Option Nat := (flatten g root).map List.length
 
 end OxiVerif.C18
